@@ -390,7 +390,7 @@ func loadKnown(path string) *knownFile {
 func matchKnown(k *knownFile, prop, obl string) *knownFinding {
 	for i := range k.Findings {
 		f := &k.Findings[i]
-		if f.Obligation == obl && (f.Property == prop || f.Property == "*") {
+		if f.Obligation == obl { // obligation names are unique; the same function may serve several properties
 			return f
 		}
 	}
